@@ -18,7 +18,8 @@ public wrappers with the mutator invoked on the guard; (2) path-event language: 
 mutator, projected on {entry, insert, remove, close(old|new), send(New|Lost), ret}, is one of the
 allowed words (mutation iff event, Lost before New, the closed connection is the one not kept, removal
 by stable id only on the equal edge); (3) snapshot+subscribe under one read guard; (4) the handler
-exit removes by (own peer id, own stable id) and never by peer id alone. Decides these shape facts
+exit removes by (own peer id, own stable id) and never by peer id alone, and that removal lies on every path on which
+the handler task returns (after the loop, not skippable). Decides these shape facts
 for all paths; does not execute histories.
 """
 TRUSTED = ["std HashMap/Entry/RwLock semantics", "tokio broadcast channel delivers in send order"]
